@@ -168,7 +168,7 @@ class Vector(MutableSequence[TScalar]):
     @override
     def __setitem__(self, index: int | slice, value: TScalar | Iterable[TScalar]) -> None:
         """Set value(s) at the specified location."""
-        if isinstance(index, int):
+        if not isinstance(index, slice):
             if isinstance(value, Iterable) and not isinstance(value, str):
                 raise TypeError("You cannot assign an Iterable to a vector index.")
             elif not isinstance(value, self._value_type):
